@@ -4,9 +4,12 @@
    denotation of a parse tree written without any stack.  Layout never reaches the listener: parse
    trees carry no WHITESPACE/NEWLINE/comment tokens (Model/Parser.v drops them), so these theorems
    hold for every layout of the same tree; that the lexer/parser model agrees with the generated
-   ANTLR parser on every rendered layout is the correspondence part of the check. *)
+   ANTLR parser on every rendered layout is the correspondence part of the check.  The last theorem makes
+   "grammatical" exact for relation definitions: [wf_rdef] is not only an upper bound of what the parser model
+   returns (Proofs/ParserShape.parse_wf) but every such tree IS returned, for its canonical token sequence, at any
+   nesting depth — so the theorems above quantify over exactly the trees the parser can produce. *)
 From Verif Require Import Base.Str Base.Outcome Model.Ast Model.Token Model.Parser Model.Listener
-  Spec.Sem Proofs.ListenerSem Proofs.ListenerFile Proofs.ParserShape.
+  Spec.Sem Proofs.ListenerSem Proofs.ListenerFile Proofs.ParserShape Proofs.ParserComplete.
 
 (* 1. a non-leading operand (a rewrite or a parenthesised group, nested to any depth) appends exactly its
       denotation and leaves the pending operator, the restrictions and the rewrite stack as they were *)
@@ -44,3 +47,12 @@ Example C03_example :
   wf_rdef def = true /\
   sem_rdef def = UDiff (UUnion [UComputed (lit "a"); UInter [UComputed (lit "b"); UComputed (lit "c")]]) (UComputed (lit "d")).
 Proof. split; reflexivity. Qed.
+
+(* parser exactness for relation definitions: every grammatical definition whose name tokens have identifier kinds
+   is the parse of its canonical token sequence (one space around operators and after commas, no line breaks),
+   whatever follows it as long as that does not start with white space *)
+Theorem C03_every_grammatical_definition_is_parsed : forall d k,
+  wf_rdef d = true -> toks_ok (rd_first d) -> toks_ok_all (rd_rest d) -> stops k ->
+  p_def (S (depth_def (rd_first d) (rd_rest d))) true (toks_def (rd_first d) (rd_op d) (rd_rest d) ++ k)
+  = Some ((rd_first d, rd_op d, rd_rest d), k).
+Proof. exact parser_complete_for_definitions. Qed.
